@@ -131,6 +131,42 @@ func c20d1scenarios(ctx *Ctx) {
 func c20d1(ctx *Ctx) {
 	c20d1scenarios(ctx)
 	str, num := cty.StringVal, cty.NumberIntVal
+	// ---- reading a set must not change it: sets whose lowest bucket holds 3 (5, 6, 7: spare capacity) hash-colliding
+	// members next to members of other buckets.  (A seeded change seeded set.Values() from the first bucket's slice:
+	// the append wrote into the set's own storage and the ordering sort permuted it, so a value changed by being read.)
+	{
+		read := func(v cty.Value) {
+			for i := 0; i < 3; i++ {
+				try(func() { _ = v.AsValueSlice() })
+				try(func() { _ = v.LengthInt() })
+				try(func() { _ = v.GoString() })
+				try(func() { _ = v.Equals(v) })
+				try(func() {
+					for it := v.ElementIterator(); it.Next(); {
+						it.Element()
+					}
+				})
+			}
+		}
+		var triples [][]cty.Value
+		triples = append(triples, []cty.Value{cty.MustParseNumberVal("62.00000000001"), cty.MustParseNumberVal("62.00000000002"), cty.MustParseNumberVal("62.00000000003")})
+		triples = append(triples, []cty.Value{cty.UnknownVal(cty.Number), cty.UnknownVal(cty.Number).RefineNotNull(), cty.UnknownVal(cty.Number).Refine().NumberRangeLowerBound(num(0), true).NewValue()})
+		five := append(append([]cty.Value{}, triples[0]...), cty.MustParseNumberVal("62.00000000004"), cty.MustParseNumberVal("62.00000000005"))
+		triples = append(triples, five)
+		for ti, tr := range triples {
+			for single := int64(1); single <= 9; single++ {
+				tr, single := tr, single
+				c20d1run(ctx, fmt.Sprintf("read a set with a %d-member bucket (family %d) next to %d", len(tr), ti, single),
+					fmt.Sprintf("v := cty.SetVal(%d hash-colliding numbers…, cty.NumberIntVal(%d)); v.AsValueSlice(); v.GoString(); v.Equals(v); iterate", len(tr), single), "",
+					func(o *c20d1obs) func() {
+						v := cty.SetVal(append(append([]cty.Value{}, tr...), num(single)))
+						w := cty.ListVal([]cty.Value{v})
+						o.vals = append(o.vals, v, w)
+						return func() { read(v); read(w) }
+					})
+			}
+		}
+	}
 	// ---- marks with paths
 	c20d1run(ctx, "UnmarkDeepWithPaths: write the mark sets and paths it returns",
 		`v := ObjectVal{a: "x".Mark("m"), b: [1.Mark("n")]}.Mark("top"); _, pvm := v.UnmarkDeepWithPaths(); pvm[i].Marks["zz"] = struct{}{}; pvm[i].Path[0] = GetAttrStep{"zz"}`, "",
